@@ -49,23 +49,23 @@ Print Assumptions C06_close_unblocks.
    it, it was reserved, and afterwards it is not: no double release, the in-use count (length held) never
    goes below zero and never counts an id twice. *)
 Theorem C06_release_once : forall n ls s l s' c,
-  0 < n -> run (init n) ls = Some s -> honest (init n) ls -> body_errors_fatal ls -> lok s l ->
+  0 < n -> run (init n) ls = Some s -> honest (init n) ls -> lok s l ->
   step s l = Some s' -> releases l = Some c ->
   holds (callers s c) /\ In (sid (callers s c)) (held s) /\ NoDup (held s) /\ ~ In (sid (callers s c)) (held s').
 Proof.
-  intros n ls s l s' c Hn Hr Hh Hb Hl Hs Hrel. destruct (reach_inv n ls s Hn Hr Hh Hb) as [I0 [I1 _]].
+  intros n ls s l s' c Hn Hr Hh Hl Hs Hrel. destruct (reach_inv n ls s Hn Hr Hh) as [I0 [I1 _]].
   eapply release_once; eauto.
 Qed.
 Print Assumptions C06_release_once.
 
 (* A connection with nothing outstanding has all its streams available. *)
 Theorem C06_quiescent_full : forall n ls s,
-  0 < n -> run (init n) ls = Some s -> honest (init n) ls -> body_errors_fatal ls ->
+  0 < n -> run (init n) ls = Some s -> honest (init n) ls ->
   closed s = false -> cctx s = false -> rcv s = RIdle -> calls s = [] ->
   (forall c, ph (callers s c) = PNone \/ exists o, ph (callers s c) = PDone o) ->
   held s = [].
 Proof.
-  intros n ls s Hn Hr Hh Hb Hc Hx Hrc Hcalls Hq. destruct (reach_inv n ls s Hn Hr Hh Hb) as [_ [I1 I2]].
+  intros n ls s Hn Hr Hh Hc Hx Hrc Hcalls Hq. destruct (reach_inv n ls s Hn Hr Hh) as [_ [I1 I2]].
   apply quiescent_full; auto. intros [D|[D|D]]; [congruence | congruence | rewrite Hrc in D; exact D].
 Qed.
 Print Assumptions C06_quiescent_full.
@@ -73,12 +73,12 @@ Print Assumptions C06_quiescent_full.
 (* An id stays reserved after its caller has returned only while the answer is still owed by the server,
    on the wire, or in the receiver's hands (on a connection that is not going down). *)
 Theorem C06_leak_only_by_silence : forall n ls s c o,
-  0 < n -> run (init n) ls = Some s -> honest (init n) ls -> body_errors_fatal ls ->
+  0 < n -> run (init n) ls = Some s -> honest (init n) ls ->
   closed s = false -> cctx s = false -> ~ rcv_dead (rcv s) ->
   holds (callers s c) -> ph (callers s c) = PDone o ->
   In (sid (callers s c), c) (srv s ++ s2c s) \/ rcv_has (rcv s) c.
 Proof.
-  intros n ls s c o Hn Hr Hh Hb Hc Hx Hrd. destruct (reach_inv n ls s Hn Hr Hh Hb) as [I0 [I1 I2]].
+  intros n ls s c o Hn Hr Hh Hc Hx Hrd. destruct (reach_inv n ls s Hn Hr Hh) as [I0 [I1 I2]].
   apply leak_only_by_silence; auto. intros [D|[D|D]]; [congruence | congruence | exact (Hrd D)].
 Qed.
 Print Assumptions C06_leak_only_by_silence.
@@ -93,12 +93,12 @@ Definition ex_close : list label :=
    CloseBegin (WCaller 2) true; CloseDeliver 1; CloseSawTimeout 2; CloseCancel; Finish 1 false].
 
 Example C06_nonvacuous_close :
-  exists s, run (init 128) ex_close = Some s /\ honest (init 128) ex_close /\ body_errors_fatal ex_close
+  exists s, run (init 128) ex_close = Some s /\ honest (init 128) ex_close
     /\ ph (callers s 1) = PDone (OResp RCloseErr) /\ ph (callers s 2) = PDone OWriteErr
     /\ closed s = true /\ cctx s = true /\ closer s = None.
 Proof.
   eexists. split; [vm_compute; reflexivity|]. split; [apply honestb_sound; vm_compute; reflexivity|].
-  split; [apply fatalb_sound; vm_compute; reflexivity|]. vm_compute. intuition.
+  vm_compute. intuition.
 Qed.
 
 (* a quiescent state after traffic (hypotheses of C06_quiescent_full), and a leak by silence *)
